@@ -77,6 +77,19 @@ def observe(ctx, db, lines, texts, sig, where, unsorted=False):
                   after=after["attrs"], expected=exp)
     ctx.check(repr(db.dialect) == dialect_before, "printing-changed-the-database-dialect", dict(sig, where=where),
               before=dialect_before, after=repr(db.dialect))
+    # the usual loop: while one iteration over the database is open, other results of the same object are opened and consumed
+    ids = [f.id for f in feats]
+    outer = []
+    for f in db.all_features():
+        inner = [g.id for g in db.all_features()]
+        looked_up = db[f.id].id
+        if inner != ids or looked_up != f.id:
+            ctx.fail("nested-iteration-differs", dict(sig, where=where, which="inner"), got=inner, expected=ids, looked_up=looked_up)
+            break
+        outer.append(f.id)
+    ctx.check(outer == ids, "nested-iteration-differs", dict(sig, where=where, which="outer"), got=outer, expected=ids)
+    lock = [(a.id, b.id) for a, b in zip(db.all_features(), db.all_features())]
+    ctx.check(lock == [(i, i) for i in ids], "nested-iteration-differs", dict(sig, where=where, which="lockstep"), got=lock[:4])
     if False:
         pass
 
